@@ -527,9 +527,21 @@ class StubsLib(StubsBase):
             raise Unsupported(f"np.stack of a symbolic-length sequence of {type(t).__name__}")
         if sq.iota is not None:
             names = {str(sq.iota)}
-            for d in t.shape:
+            dims = []
+            for k_, d in enumerate(t.shape):
                 if is_sym(d) and names & {str(v) for v in _free_vars(V.Z(d))}:
-                    raise Unsupported("np.stack: element shape depends on the element index")
+                    # the extent is written in terms of the generic index: it must be the same for every index
+                    other = ctx.fresh("iota2", "int")
+                    with ctx.scope():
+                        ctx.assume(z3.And(other >= 0, other < V.Z(sq.n)), why="second generic index")
+                        ctx.fold_point(other, sq.n)
+                        it2 = sq.item(other)
+                        it2 = it2.val if isinstance(it2, Qty) else it2
+                        same = isinstance(it2, SArr) and it2.ndim == t.ndim and ctx.is_valid(V.eq(it2.shape[k_], d))
+                    if not same:
+                        raise Unsupported("np.stack over a symbolic-length sequence: cannot show that every element has the same shape")
+                dims.append(d)
+            t = SArr(tuple(dims), t.elem, t.dtype, t.backend)
         ax = axis if axis >= 0 else axis + t.ndim + 1
         if not 0 <= ax <= t.ndim:
             raise PyExc("AxisError", "axis out of bounds")
